@@ -251,7 +251,16 @@ def scenarios():
     a1, a2 = args_of(part()), args_of(part())
     ok = (a1['s2'] is a2['s2'] and a1['s3'] is a2['s3'] and a1['s3']['k1'] is a2['s3']['k1']
           and a1['s1'] is not a2['s1'] and a1['s1'] == [0, None])
-    return ok or f's2 same: {a1["s2"] is a2["s2"]}, s3 same: {a1["s3"] is a2["s3"]}, s1 fresh: {a1["s1"] is not a2["s1"]}'
+    if not ok:
+      return f's2 same: {a1["s2"] is a2["s2"]}, s3 same: {a1["s3"] is a2["s3"]}, s1 fresh: {a1["s1"] is not a2["s1"]}'
+    # the same inside one argument: siblings of a factory that hold no factory themselves
+    part = fdl.build(fdl.Partial(H.f1, s1=[fdl.ArgFactory(int), [0, 'x'], {'k1': [0], 'k2': (0, None)},
+                                           fdl.ArgFactory(lambda: None), [None]]))
+    b1, b2 = args_of(part())['s1'], args_of(part())['s1']
+    ok = (b1 is not b2 and b1[1] is b2[1] and b1[2] is b2[2] and b1[2]['k1'] is b2[2]['k1'] and b1[4] is b2[4]
+          and b1[0] == 0 and b1[3] is None)
+    return ok or (f'siblings without a factory copied per call: list {b1[1] is b2[1]}, dict {b1[2] is b2[2]}, '
+                  f'inner {b1[2]["k1"] is b2[2]["k1"]}, last {b1[4] is b2[4]}')
   def s_override_then_not():
     # the first call overrides a factory argument, later calls do not: they still get fresh values
     part = fdl.build(fdl.Partial(H.f1, s1=fdl.ArgFactory(list), s2=[fdl.ArgFactory(dict)]))
